@@ -131,6 +131,11 @@ def valueText (s : St) (op : Op) : Option (Nat × String) :=
     | some (_, cell), some (_, tcell) => some (d, cell.text ++ tcell.text)
     | _, _ => none
   | .sadd d a w => (strSlot s a).map (fun (_, cell) => (d, cell.text ++ w))
+  | .saddl d a w => (strSlot s a).map (fun (_, cell) => (d, w ++ cell.text))
+  | .sadd2 d a t =>
+    match strSlot s a, strSlot s t with
+    | some (_, cell), some (_, tcell) => some (d, cell.text ++ tcell.text)
+    | _, _ => none
   | .schar d i w => (strSlot s d).map (fun (_, cell) => (d, setCharAt cell.text i w))
   | .srange d i j w => (strSlot s d).map (fun (_, cell) => (d, setRange cell.text i j w))
   | _ => none
